@@ -2,6 +2,8 @@ package main
 
 import (
 	"bytes"
+	"encoding/json"
+	"errors"
 	"fmt"
 	"strconv"
 	"strings"
@@ -24,8 +26,9 @@ type Handed struct {
 	Snap   []byte        // copy of Records taken at hand-over
 	Count  int
 	Status byte
-	OpIdx  int // index of the operation during which it was handed over (deterministic mode)
-	Direct int // >=0: index of the SendDirect call it belongs to (free mode: identified by goroutine)
+	OpIdx  int  // index of the operation during which it was handed over (deterministic mode)
+	Direct int  // >=0: index of the SendDirect call it belongs to (free mode: identified by goroutine)
+	Failed bool // the client answered this hand-over with an error
 }
 
 type recClient struct {
@@ -37,7 +40,11 @@ type recClient struct {
 	zipMin  func() int64 // settings in force, read at hand-over
 	zipMins []int64
 	slow    time.Duration // transmission time of the client (free-running mode: a slow consumer)
+	fault   string        // which hand-overs are answered with an error (see faultAt)
+	nFault  int
 }
+
+var errInjected = errors.New("injected transmission error")
 
 func (c *recClient) SendFlush(p pack.Pack, flush bool, opts ...wnet.TcpClientOption) error {
 	z, ok := p.(*pack.ZipPack)
@@ -61,6 +68,12 @@ func (c *recClient) SendFlush(p pack.Pack, flush bool, opts ...wnet.TcpClientOpt
 	if c.zipMin != nil {
 		c.zipMins = append(c.zipMins, c.zipMin())
 	}
+	// a hand-over is a hand-over whatever the client answers: the pack is recorded first
+	if c.fault != "" && faultAt(c.fault, len(c.got)-1) {
+		c.nFault++
+		h.Failed = true
+		return errInjected
+	}
 	return nil
 }
 
@@ -78,11 +91,11 @@ func (c *recClient) n() int {
 
 type mapConf map[string]int64
 
-func (m mapConf) ApplyDefault()                            {}
-func (m mapConf) GetConfFile() string                      { return "" }
-func (m mapConf) Destroy()                                 {}
-func (m mapConf) GetKeys() []string                        { return nil }
-func (m mapConf) GetValue(key string) string               { return m.GetValueDef(key, "") }
+func (m mapConf) ApplyDefault()              {}
+func (m mapConf) GetConfFile() string        { return "" }
+func (m mapConf) Destroy()                   {}
+func (m mapConf) GetKeys() []string          { return nil }
+func (m mapConf) GetValue(key string) string { return m.GetValueDef(key, "") }
 func (m mapConf) GetValueDef(key, def string) string {
 	if v, ok := m[key]; ok {
 		return strconv.FormatInt(v, 10)
@@ -132,11 +145,11 @@ func (c *ConfSpec) toConf() mapConf {
 
 // Decoded is what the real pack / compressutil code makes of a handed-over pack.
 type Decoded struct {
-	Raw     []byte   // payload after decompression when flagged
-	Encs    [][]byte // re-encoding of each decoded record
-	Err     string   // non-empty: the payload does not decode to RecordCount records exactly
-	Zipped  bool
-	Count   int
+	Raw    []byte   // payload after decompression when flagged
+	Encs   [][]byte // re-encoding of each decoded record
+	Err    string   // non-empty: the payload does not decode to RecordCount records exactly
+	Zipped bool
+	Count  int
 }
 
 func decodePack(records []byte, count int, status byte) *Decoded {
@@ -198,16 +211,18 @@ type finding struct {
 type evalCtx struct {
 	recs   map[int]*Rec
 	byEnc  map[string]int
+	byPtr  map[*pack.LogSinkPack]int
 	finds  []finding
 	isProp bool
 }
 
 func newEvalCtx(specs []RecSpec) *evalCtx {
-	e := &evalCtx{recs: map[int]*Rec{}, byEnc: map[string]int{}}
+	e := &evalCtx{recs: map[int]*Rec{}, byEnc: map[string]int{}, byPtr: map[*pack.LogSinkPack]int{}}
 	for _, s := range specs {
 		r := NewRec(s)
 		e.recs[s.ID] = r
 		e.byEnc[string(r.Enc)] = s.ID
+		e.byPtr[r.P] = s.ID
 	}
 	return e
 }
@@ -222,7 +237,8 @@ func (e *evalCtx) corr(key, f string, a ...interface{}) {
 
 // checkPack evaluates the per-pack clauses of the property on one handed-over pack and
 // returns the ids of the records it decodes to (nil when undecodable).
-//   site: "sendAndClear" | "SendDirect";  zipMin: threshold in force when it was built
+//
+//	site: "sendAndClear" | "SendDirect";  zipMin: threshold in force when it was built
 func (e *evalCtx) checkPack(h *Handed, site string, zipMin int64, idx int) ([]int, *Decoded) {
 	if h.Count == -1 && h.Snap == nil && h.P == nil {
 		e.prop(site+":not-a-zip-pack", "pack #%d handed to the client is not a *pack.ZipPack", idx)
@@ -339,7 +355,7 @@ func fromVS(s zip.SettingsForVerif) Settings {
 
 // runDet executes a deterministic history on the real sender and evaluates the property on it.
 func runDet(c *Case, e *evalCtx) *detResult {
-	cl := &recClient{mode: c.Client}
+	cl := &recClient{mode: c.Client, fault: c.Fault}
 	var snd *zip.ZipSendProxyThread
 	snd = zip.NewForVerif(cl, toVS(c.Settings))
 	cl.zipMin = func() int64 { return int64(snd.SettingsForVerif().ZipMinSize) }
@@ -347,15 +363,15 @@ func runDet(c *Case, e *evalCtx) *detResult {
 	if c.FailedCb {
 		snd.Queue.Failed = func(v interface{}) {
 			if p, ok := v.(*pack.LogSinkPack); ok {
-				dropped = append(dropped, int(p.Line))
+				dropped = append(dropped, e.byPtr[p])
 			}
 		}
 	}
 	refused := map[int]bool{} // ids the bounded queue must refuse (queue full at the time of Add)
 	fifoBroken := false
 	res := &detResult{}
-	var fifo []int   // mirror of the queue: ids accepted and not yet dequeued
-	var fed []int    // ids passed to Append, in order
+	var fifo []int // mirror of the queue: ids accepted and not yet dequeued
+	var fed []int  // ids passed to Append, in order
 	stopped := false
 	type dcall struct {
 		op   int
@@ -502,7 +518,11 @@ func runDet(c *Case, e *evalCtx) *detResult {
 				e.prop("Append:flush-missed", "op %d: record %d (%d bytes, time %d) appended to %d buffered bytes (first time %d) with limits %d bytes / %d ms, but %d bytes stay buffered",
 					i, appended, len(r.Enc), r.Spec.Time, len0, first0, st.MaxBuf, st.MaxWait, len1)
 			}
-			if !must && (cl.n() != np0 || cnt1 != cnt0+1) {
+			if cl.n() == np0 && cnt1 == cnt0 && len1 == len0 {
+				sp, _ := json.Marshal(r.Spec)
+				e.prop("Append:record-vanished", "op %d: record %s was passed to Append and is neither buffered (count %d, %d bytes as before) nor handed over: it is lost (a panic inside Append is swallowed by its recover)",
+					i, sp, cnt0, len0)
+			} else if !must && (cl.n() != np0 || cnt1 != cnt0+1) {
 				e.corr("Append:flush-early", "op %d: record %d appended below both limits but the batch was flushed (count %d -> %d)", i, appended, cnt0, cnt1)
 			}
 		}
@@ -518,6 +538,7 @@ func runDet(c *Case, e *evalCtx) *detResult {
 	cl.mu.Unlock()
 	res.nPack = len(got)
 	var sharedIDs []int
+	var packIDs [][]int
 	directIDs := map[int][]int{} // op index -> ids
 	isDirectOp := map[int]bool{}
 	for _, d := range dcalls {
@@ -533,6 +554,7 @@ func runDet(c *Case, e *evalCtx) *detResult {
 			zm = zipMins[k]
 		}
 		ids, d := e.checkPack(h, site, zm, k)
+		packIDs = append(packIDs, ids)
 		res.packs = append(res.packs, e.packLine(src, d, ids))
 		if src == "S" {
 			sharedIDs = append(sharedIDs, ids...)
@@ -548,6 +570,20 @@ func runDet(c *Case, e *evalCtx) *detResult {
 				break
 			}
 		}
+		seenAt := map[int]int{}
+		for k, h := range got {
+			_ = h
+			if k < len(packIDs) {
+				for _, id := range packIDs[k] {
+					if first, dup := seenAt[id]; dup {
+						e.prop("emit:duplicate", "record %d was handed over in pack #%d and again in pack #%d (the client answered pack #%d with error=%v)", id, first, k, first, got[first].Failed)
+						goto dupDone
+					}
+					seenAt[id] = k
+				}
+			}
+		}
+	dupDone:
 		// every record passed to Append is in exactly one pack, in order, or still buffered
 		if cnt < 0 || cnt > len(fed) || !eqInts(sharedIDs, fed[:len(fed)-cnt]) {
 			e.prop("emit:not-exactly-once-in-order", "records passed to Append: %s; emitted in shared packs: %s; still buffered: %d",
